@@ -2,6 +2,8 @@
 
 package http2
 
+import "errors"
+
 // Exported shims for the verification harness (/verif). Built only with
 // -tags verif; nothing here changes the behaviour of the package.
 
@@ -121,3 +123,68 @@ func (f *FrameHeader) VerifPayload() []byte { return f.payload }
 
 // VerifSetMaxLen sets the receive limit used by ReadFrom.
 func (f *FrameHeader) VerifSetMaxLen(n uint32) { f.maxLen = n }
+
+// VerifPendingMinSize returns pendingMinSize (the smallest table size set
+// since the last header block was encoded).
+func (hp *HPACK) VerifPendingMinSize() uint32 { return hp.pendingMinSize }
+
+// VerifStreamBlock is what a Stream keeps between the frames of a header
+// block for serverConn.handleHeaderFrame.
+type VerifStreamBlock struct {
+	previousHeaderBytes []byte
+	blockFields         int
+}
+
+// VerifHandleHeaderFrame drives nextField with the loop of
+// serverConn.handleHeaderFrame, followed by the END_HEADERS check of
+// handleFrame, reduced to the decoding skeleton: the validation of the fields
+// as an HTTP request is left out, emit is called where that code stands.
+func (hp *HPACK) VerifHandleHeaderFrame(strm *VerifStreamBlock, payload []byte, isContinuation, endHeaders bool, emit func(hf *HeaderField)) error {
+	if !isContinuation {
+		strm.blockFields = 0
+	}
+
+	b := append(strm.previousHeaderBytes, payload...)
+	strm.previousHeaderBytes = b[:0]
+
+	hf := AcquireHeaderField()
+	defer ReleaseHeaderField(hf)
+
+	var err error
+
+	for len(b) > 0 {
+		pb := b
+
+		var decoded bool
+
+		b, decoded, err = hp.nextField(hf, true, strm.blockFields, b)
+		if err == nil && !decoded {
+			break
+		}
+
+		if err != nil {
+			if errors.Is(err, ErrUnexpectedSize) && len(pb) > 0 && !endHeaders {
+				err = nil
+				strm.previousHeaderBytes = append(strm.previousHeaderBytes, pb...)
+			} else {
+				err = NewGoAwayError(CompressionError, err.Error())
+			}
+
+			break
+		}
+
+		emit(hf)
+
+		strm.blockFields++
+	}
+
+	if err != nil {
+		return err
+	}
+
+	if endHeaders && len(strm.previousHeaderBytes) != 0 {
+		return NewGoAwayError(ProtocolError, "END_HEADERS received on an incomplete stream")
+	}
+
+	return nil
+}
